@@ -22,16 +22,20 @@ use std::{
 };
 
 use async_trait::async_trait;
+use futures::future::BoxFuture;
 use sciparse::{
     address::ip_socket_addr::ScionSocketIpAddr,
     core::view::View as _,
+    identifier::isd_asn::IsdAsn,
     packet::view::ScionRawPacketView,
 };
 
 use crate::{
     internal::Subscribers,
+    path::fetcher::traits::{SegmentFetchError, SegmentFetcher, Segments},
     stack::{
-        BoundUnderlaySocket, ScionSocketReceiveError, ScionSocketSendError, UnderlaySocket,
+        BoundUnderlaySocket, DynUnderlayStack, ScionSocketBindError, ScionSocketReceiveError,
+        ScionSocketSendError, ScionStack, SocketKind, UnderlaySocket,
         scmp_handler::{ScmpErrorHandler, ScmpErrorReceiver, ScmpHandler},
         socket::PathUnawareUdpScionSocket,
     },
@@ -101,4 +105,64 @@ pub fn error_handler(receivers: &[Arc<dyn ScmpErrorReceiver>]) -> Box<dyn ScmpHa
         subscribers.register(r.clone());
     }
     Box::new(ScmpErrorHandler::new(subscribers))
+}
+
+struct QueueUnderlayStack {
+    queues: Arc<Queues>,
+    local_addr: ScionSocketIpAddr,
+}
+
+impl DynUnderlayStack for QueueUnderlayStack {
+    fn bind_socket(
+        &self,
+        _kind: SocketKind,
+        bind_addr: Option<ScionSocketIpAddr>,
+    ) -> BoxFuture<'_, Result<BoundUnderlaySocket, ScionSocketBindError>> {
+        Box::pin(async move {
+            Ok(BoundUnderlaySocket {
+                socket: Box::new(QueueUnderlay(self.queues.clone())),
+                local_addr: bind_addr.unwrap_or(self.local_addr),
+                snap_data_plane: None,
+            })
+        })
+    }
+
+    fn local_ases(&self) -> Vec<IsdAsn> {
+        vec![self.local_addr.isd_asn()]
+    }
+}
+
+struct NoSegments;
+
+#[async_trait]
+impl SegmentFetcher for NoSegments {
+    async fn fetch_segments(
+        &self,
+        _src: IsdAsn,
+        _dst: IsdAsn,
+    ) -> Result<Segments, SegmentFetchError> {
+        Err("no segments in the verification stack".into())
+    }
+}
+
+/// A real [`ScionStack`] (built by `ScionStack::new`) whose underlay sockets all read from and
+/// write to one pair of in-memory queues: the sockets returned by its `bind*` methods carry the
+/// SCMP handlers production code installs.
+pub fn stack_over_queues(local_addr: ScionSocketIpAddr) -> (ScionStack, Arc<Queues>) {
+    let queues = Arc::new(Queues::default());
+    let stack = ScionStack::new(
+        None,
+        Arc::new(NoSegments),
+        Arc::new(QueueUnderlayStack {
+            queues: queues.clone(),
+            local_addr,
+        }),
+    );
+    (stack, queues)
+}
+
+/// Adds `receiver` to the stack's SCMP error receivers (the list the path managers of its sockets
+/// are registered in; held weakly).
+pub fn register_scmp_error_receiver(stack: &ScionStack, receiver: Arc<dyn ScmpErrorReceiver>) {
+    stack.scmp_error_receivers.register(receiver);
 }
